@@ -5,7 +5,7 @@ of a Framing instance that a real receiver consumes under random schedules."""
 import random
 import struct
 
-from . import core, tlc, framing, fakes
+from . import refwire, core, tlc, framing, fakes
 from .framing import Instance, mk_msg, INVS_C04, INVS_C20, OBS_FD, ACTIONS
 from .tlaval import to_tla
 
@@ -98,15 +98,25 @@ class SendDriver:
     def apply(self, name, args):
         i = self.sent + 1
         fds = list(self.plan[i - 1])
-        # alternate between the two public ways of sending
-        if i % 2:
-            sig = ''.join('h' for _ in fds) + 's'
-            self.conn.callRemote('/p%d' % i, 'M%d' % i, interface='org.ex.I', destination='org.ex.D',
-                                 signature=sig, body=fds + ['t%d' % i])
+        # alternate between the two public ways of sending and between the places a descriptor can sit in a body:
+        # plain arguments, inside a struct, as array elements, as dict values
+        shape = i % 5
+        if shape == 1:
+            sig, body = ''.join('h' for _ in fds) + 's', fds + ['t%d' % i]
+        elif shape == 2:
+            sig, body = 's' + ''.join('h' for _ in fds), ['t%d' % i] + fds
+        elif shape == 3:
+            sig, body = '(s' + ''.join('h' for _ in fds) + ')s', [tuple(['t%d' % i] + fds), 'u']
+        elif shape == 4:
+            sig, body = 'sah', ['t%d' % i, fds]
         else:
-            sig = 's' + ''.join('h' for _ in fds)
+            sig, body = 'a{sh}s', [dict(('k%d' % j, fd) for j, fd in enumerate(fds)), 't%d' % i]
+        if i % 2:
+            self.conn.callRemote('/p%d' % i, 'M%d' % i, interface='org.ex.I', destination='org.ex.D',
+                                 signature=sig, body=body)
+        else:
             m = message.MethodCallMessage('/p%d' % i, 'M%d' % i, interface='org.ex.I', signature=sig,
-                                          body=['t%d' % i] + fds, oobFDs=[])
+                                          body=body, oobFDs=[])
             self.conn.sendMessage(m)
         self.sent = i
 
@@ -158,18 +168,40 @@ def header_fds(raw):
             raise ValueError('header field type %r' % vsig)
     body = end + (8 - end % 8) % 8
     idx = []
-    p = body
-    for c in sig:
+    pos = [body]
+
+    def al(n):
+        pos[0] += (n - pos[0] % n) % n
+
+    def u32():
+        al(4)
+        v = struct.unpack(e + 'I', raw[pos[0]:pos[0] + 4])[0]
+        pos[0] += 4
+        return v
+
+    def scan(t):
+        c = t[0]
         if c == 'h':
-            p += (4 - p % 4) % 4
-            idx.append(struct.unpack(e + 'I', raw[p:p + 4])[0])
-            p += 4
+            idx.append(u32())
         elif c == 's':
-            p += (4 - p % 4) % 4
-            n = struct.unpack(e + 'I', raw[p:p + 4])[0]
-            p += 4 + n + 1
+            n = u32()
+            pos[0] += n + 1
+        elif c in '({':
+            al(8)
+            for x in refwire.split(t[1:-1]):
+                scan(x)
+        elif c == 'a':
+            n = u32()
+            el = t[1:]
+            if el[0] in '({':
+                al(8)
+            stop = pos[0] + n
+            while pos[0] < stop:
+                scan(el)
         else:
-            raise ValueError('body type %r' % c)
+            raise ValueError('body type %r' % t)
+    for t in refwire.split(sig):
+        scan(t)
     return declared, idx
 
 
